@@ -59,9 +59,63 @@ def deps(node, acc):
         deps(c, acc)
 
 
+_IMG = [("uint32_t", "uint64_t"), ("UINT32_MAX", "UINT64_MAX"), ("_u32", "_u64"), ("_i32", "_i64")]
+
+
+def check_size_bits_branches(repo):
+    """Only the SIZE_BITS == 64 branches of the size_t dispatchers are compiled (and therefore translated and proved)
+    on this target.  The other branch is tied to the proved one textually: every `#if SIZE_BITS == ..` block that has
+    both a 32-bit and a 64-bit branch must have, as its 32-bit branch, exactly the 64-bit branch with u64 -> u32
+    (names and types); a block whose only branch is for another width than 64 is rejected.  GenError otherwise."""
+    for hdr in ("math.inl", "math.fallback.inl", "math.gcc_builtin.inl", "math.gcc_overflow.inl", "math.gcc_x64_asm.inl", "clock.inl"):
+        path = os.path.join(repo, "include", "aws", "common", hdr)
+        lines = re.sub(r"/\*.*?\*/", "", open(path).read(), flags=re.S).splitlines()
+        i = 0
+        while i < len(lines):
+            m = re.match(r"\s*#\s*if\s+SIZE_BITS\s*==\s*(\d+)\s*$", lines[i])
+            if not m:
+                if re.match(r"\s*#\s*(if|ifdef|ifndef|elif)\b.*\bSIZE_BITS\b", lines[i]):
+                    raise GenError(f"{hdr}:{i + 1}: SIZE_BITS used in a preprocessor condition of an unknown form")
+                i += 1
+                continue
+            branches, cur, key, start = {}, [], int(m.group(1)), i + 1
+            i += 1
+            while i < len(lines) and not re.match(r"\s*#\s*endif\b", lines[i]):
+                l = lines[i]
+                m2 = re.match(r"\s*#\s*elif\s+SIZE_BITS\s*==\s*(\d+)\s*$", l)
+                if m2 or re.match(r"\s*#\s*else\b", l):
+                    branches[key] = " ".join(" ".join(cur).split())
+                    cur, key = [], (int(m2.group(1)) if m2 else "else")
+                elif re.match(r"\s*#\s*(if|ifdef|ifndef|elif)\b", l):
+                    raise GenError(f"{hdr}:{i + 1}: nested conditional inside a SIZE_BITS block")
+                else:
+                    cur.append(l)
+                i += 1
+            if i >= len(lines):
+                raise GenError(f"{hdr}:{start}: unterminated SIZE_BITS block")
+            branches[key] = " ".join(" ".join(cur).split())
+            i += 1
+            if "else" in branches and re.match(r"#\s*error\b", branches["else"]):
+                del branches["else"]
+            if 64 not in branches:
+                raise GenError(f"{hdr}:{start}: SIZE_BITS block without a 64-bit branch: {branches}")
+            other = branches.get(32, branches.get("else"))
+            if set(branches) - {32, 64, "else"} or (32 in branches and "else" in branches):
+                raise GenError(f"{hdr}:{start}: SIZE_BITS block with unexpected branches {sorted(map(str, branches))}")
+            if other is not None:
+                img = other
+                for a, b in _IMG:
+                    img = img.replace(a, b)
+                if img != branches[64]:
+                    raise GenError(f"{hdr}:{start}: the 32-bit branch `{other}` is not the u32 image of the proved 64-bit branch `{branches[64]}`")
+
+
 def generate(repo, cfg_inc, varargs=True):
+    # varargs=False is the degraded mode that only keeps the harness runnable: it also skips the textual rules
     """returns (lean_math_text, lean_dispatch_text, meta) ; meta: list of dicts per translated function.
     varargs=False leaves source/math.c out (used only to keep the harness runnable when that translation fails)"""
+    if varargs:
+        check_size_bits_branches(repo)
     inc = includes(repo, cfg_inc)
     tu = tu_text(repo, VARIANTS)
     all_nodes = {}     # C prefixed name -> node
@@ -130,7 +184,7 @@ def generate(repo, cfg_inc, varargs=True):
     for cn in order:
         key, ns, name, node = all_nodes[cn]
         lean_q = f"{ns}.{name}"
-        tr = cfun.FnTranslator(node, name, resolve, enums, fuel=FUEL)
+        tr = cfun.FnTranslator(node, name, resolve, enums, fuel=FUEL, strict_unwritten=True)
         try:
             text, info = tr.translate()
         except GenError as e:
@@ -266,7 +320,7 @@ def c_dispatch(repo, meta):
                     f'if (rc == 0) printf("P ok %llu\\n", (unsigned long long)out); else printf("P err %d\\n", aws_last_error()); return 1;')
         elif info["outs"]:
             ot = CT[[p for p in info["params"] if p[1][0] == "ptr"][0][1][1]]
-            body = (f"{ot} out = 0; unsigned long long r = (unsigned long long)({UT[info['ret'][0]]}){m['cname']}({', '.join(args)}); "
+            body = (f"{ot} out = ({ot})0xDEADBEEFDEADBEEFULL; unsigned long long r = (unsigned long long)({UT[info['ret'][0]]}){m['cname']}({', '.join(args)}); "
                     f'printf("P val %llu %llu\\n", r, (unsigned long long)out); return 1;')
         else:
             body = (f"unsigned long long r = (unsigned long long)({UT[info['ret'][0]]}){m['cname']}({', '.join(args)}); "
